@@ -30,7 +30,7 @@ Record peer_state := {
   t_u2e : gmap uuid ent;
   t_e2u : gmap ent uuid;
   t_queue : list (uuid * tyid * value);
-  t_ctok : list (uuid * tyid);
+  t_ctok : list (uuid * tyid * tick);   (* pushed_component_from_network: key -> change tick of the network apply *)
   t_htok : list uuid;
   t_ptok : gmap uuid uuid;         (* pushed_parent_from_network: links applied from the network, not yet seen by the tracking system *)
   t_mat : bool; t_mesh : bool; t_audio : bool;
@@ -94,6 +94,11 @@ Definition pair_eqb (a b : uuid * tyid) : bool := (a.1 =? b.1) && (a.2 =? b.2).
 Definition mem_pair (x : uuid * tyid) (l : list (uuid * tyid)) : bool := existsb (pair_eqb x) l.
 Definition remove_pair (x : uuid * tyid) (l : list (uuid * tyid)) := filter (fun y => negb (pair_eqb x y)) l.
 Definition removeN (x : N) (l : list N) : list N := filter (fun y => negb (x =? y)) l.
+(* the debounce map of components: at most one entry per key *)
+Definition tok_find (x : uuid * tyid) (l : list (uuid * tyid * tick)) : option tick :=
+  match filter (fun y : uuid * tyid * tick => pair_eqb x y.1) l with (_, k) :: _ => Some k | [] => None end.
+Definition tok_remove (x : uuid * tyid) (l : list (uuid * tyid * tick)) : list (uuid * tyid * tick) :=
+  filter (fun y : uuid * tyid * tick => negb (pair_eqb x y.1)) l.
 (* one occurrence less (the debounce counter of pushed_handles_from_network) *)
 Fixpoint remove1N (x : N) (l : list N) : list N :=
   match l with [] => [] | y :: l => if x =? y then l else y :: remove1N x l end.
@@ -182,9 +187,15 @@ Definition set_parent_twice (pr : peer_state) (c p : ent) : peer_state :=
 (* ---------- tracker -------------------------------------------------------------------- *)
 
 (* SyncTrackerRes::signal_component_changed *)
-Definition signal_component_changed (pr : peer_state) (u : uuid) (t : tyid) (v : value) : peer_state :=
-  if mem_pair (u, t) (t_ctok pr) then pr <| t_ctok := remove_pair (u, t) (t_ctok pr) |>
-  else pr <| t_queue := t_queue pr ++ [(u, t, v)] |>.
+(* [changed] = the component's change tick as the detector sees it (Ref<T>::last_changed): only the
+   change made by the network apply itself is debounced, a later local write is queued *)
+Definition signal_component_changed (pr : peer_state) (u : uuid) (t : tyid) (v : value) (changed : tick) : peer_state :=
+  match tok_find (u, t) (t_ctok pr) with
+  | Some applied_at =>
+      let pr := pr <| t_ctok := tok_remove (u, t) (t_ctok pr) |> in
+      if applied_at =? changed then pr else pr <| t_queue := t_queue pr ++ [(u, t, v)] |>
+  | None => pr <| t_queue := t_queue pr ++ [(u, t, v)] |>
+  end.
 
 (* to_skinned_mapper / to_skinned_mesh: joints translated through the maps, unknown ones dropped *)
 Definition to_skinned_mapper (pr : peer_state) (joints : list ent) (poses : list N) : value :=
@@ -219,7 +230,7 @@ Definition apply_component_change (pr : peer_state) (e : ent) (t : tyid) (v : va
                                   end in
                  if different then
                    (* the token is recorded under the type path the detector will announce *)
-                   let pr := pr <| t_ctok := (u, announced) :: remove_pair (u, announced) (t_ctok pr) |> in
+                   let pr := pr <| t_ctok := (u, announced, p_tick pr) :: tok_remove (u, announced) (t_ctok pr) |> in
                    (upd_ent pr e (put_comp (p_tick pr) t v), true)
                  else (pr, false)
              end
@@ -452,8 +463,8 @@ Definition sync_detect (pr : peer_state) (t : tyid) (last : tick) : peer_state :
            | Some u, Some c =>
                if negb (memN t (en_excl en)) && ((last <? c_changed c) || (last <? en_sync_added en)) then
                  match c_val c with
-                 | VSkin j p => signal_component_changed pr u T_MAPPER (to_skinned_mapper pr j p)
-                 | v => signal_component_changed pr u t v
+                 | VSkin j p => signal_component_changed pr u T_MAPPER (to_skinned_mapper pr j p) (c_changed c)
+                 | v => signal_component_changed pr u t v (c_changed c)
                  end
                else pr
            | _, _ => pr
@@ -786,9 +797,11 @@ Definition state_transition (pr : peer_state) : peer_state :=
   | None => pr
   end.
 
-(* Last: asset events queued during this frame become readable *)
+(* Last: asset events queued during this frame become readable. The systems of PostUpdate / Last
+   (and World::clear_trackers) advance the change tick: anything the application writes between
+   frames is stamped later than every command applied in the frame. *)
 Definition last_schedule (pr : peer_state) : peer_state :=
-  pr <| a_ready := a_ready pr ++ a_events pr |> <| a_events := [] |>.
+  pr <| a_ready := a_ready pr ++ a_events pr |> <| a_events := [] |> <| p_tick := p_tick pr + 1 |>.
 
 Definition frame (pr : peer_state) (o : frame_oracle) : peer_state :=
   match p_panic pr with
